@@ -1874,7 +1874,8 @@ func runSeg(f lib.Flags, res *lib.Result, drv *lib.Driver) {
 	mon := res.Monitor("segment-step-function",
 		"every tie case also goes through an independent Go oracle (segments laid out as spans on the time axis): ActiveAt/MagnitudeAt/Duration/Max* against their documented meaning; "+
 			"results of Cut/Shift/Sum and the modepb operations sampled with the real MagnitudeAt at every integer ns from 2 before the first to 3 after the last breakpoint plus a far instant, "+
-			"against pointwise sum / translation / split of the oracle; every argument (elements, spare slice capacity, mode) deep-compared before/after")
+			"against pointwise sum / translation / split of the oracle; every argument (elements, spare slice capacity, mode) deep-compared before/after; "+
+			"the sampled cases (the first of every operation, then every n-th; counters watch/*) run once more with every argument object - messages, lengths, start times, oneof wrappers, slice backing arrays incl. spare capacity, the slice of lists / modes - in read-only pages: any store into them during the call, also one that is undone before it returns, is reported with object and field (watch.go)")
 	itoa := func(x int64) string { return strconv.FormatInt(x, 10) }
 
 	// K2: exhaustive small domain
